@@ -25,8 +25,9 @@ class Regions:
     """
 
     def __init__(self, regions=(), /):
-        if regions == ():
-            regions = []
+        # a new list: any iterable (also a one-shot iterator) is read
+        # exactly once, and the caller's sequence is not shared
+        regions = list(regions)
         for item in regions:
             if not isinstance(item, Region):
                 raise TypeError('Input regions must be a list of Region '
@@ -78,6 +79,7 @@ class Regions:
         if isinstance(regions, Regions):
             self.regions.extend(regions.regions)
         else:
+            regions = list(regions)  # read a one-shot iterator only once
             for item in regions:
                 if not isinstance(item, Region):
                     raise TypeError('Input regions must be a list of Region '
